@@ -237,12 +237,34 @@ func (tr *c14Transport) RoundTrip(creq *http.Request) (*http.Response, error) {
 			t.Header.Del("Content-Type")
 		case "wrong-content-type":
 			t.Header.Set("Content-Type", "application/octet-stream")
+		case "ms-neutral":
+			if t.Status == 207 {
+				if nb, what := neutralRewrite(t.Body, f.Sel); what != "" {
+					t.Body, t.Rewritten = nb, what
+				}
+			}
 		case "ms-response-status", "ms-propstat-status", "ms-no-href", "ms-two-hrefs", "ms-empty", "ms-status-garbage":
 			if t.Status == 207 {
 				if nb, what := rewriteMultiStatus(t.Body, f); what != "" {
 					t.Body, t.Rewritten = nb, what
 				}
 			}
+		}
+	}
+	if f != nil && strings.HasPrefix(f.Kind, "status-") && f.Note == "cut" && t.endless == nil && len(t.Body) > 0 {
+		// the error answer itself does not arrive whole: the connection breaks
+		// inside its body (the status line and the headers are there)
+		t.CutAt, t.CutKind = f.At%len(t.Body), "cut-error"
+	}
+	announced := int64(-1)
+	if f != nil && f.Note == "absurd-length" {
+		// a Content-Length that has nothing to do with what follows (a broken
+		// proxy, an attack): the body ends, with an error, long before it
+		announced = []int64{1 << 62, 1<<63 - 1, 1 << 40, 1 << 31}[f.Sel%4]
+		t.Header = t.Header.Clone()
+		t.Header.Set("Content-Length", fmt.Sprint(announced))
+		if t.CutAt < 0 {
+			t.CutAt, t.CutKind = len(t.Body), "cut-error"
 		}
 	}
 	var body io.ReadCloser = io.NopCloser(bytes.NewReader(t.Body))
@@ -260,11 +282,60 @@ func (tr *c14Transport) RoundTrip(creq *http.Request) (*http.Response, error) {
 	return &http.Response{
 		Status: fmt.Sprintf("%d %s", t.Status, http.StatusText(t.Status)), StatusCode: t.Status,
 		Proto: "HTTP/1.1", ProtoMajor: 1, ProtoMinor: 1, Header: t.Header,
-		Body: noteClose(t, body), ContentLength: -1, Request: creq,
+		Body: noteClose(t, body), ContentLength: announced, Request: creq,
 	}, nil
 }
 
 // ---- multi-status rewriting ------------------------------------------------------
+
+// neutralRewrite says the same multi-status in other words: status lines with
+// an empty reason phrase (legal: "HTTP/1.1 200 " - the library writes them
+// itself for codes it has no text for), another protocol version and a long
+// phrase, indentation between the elements, comments and a processing
+// instruction. The call must give what it gives for the original.
+func neutralRewrite(body []byte, sel int) ([]byte, string) {
+	root, err := model.ParseXML(body)
+	if err != nil || !root.Is(model.DAV, "multistatus") {
+		return nil, ""
+	}
+	var walk func(e *model.Elem, f func(*model.Elem))
+	walk = func(e *model.Elem, f func(*model.Elem)) {
+		f(e)
+		for _, k := range e.Kids {
+			walk(k, f)
+		}
+	}
+	what := ""
+	switch sel % 3 {
+	case 0:
+		what = "status lines with an empty reason phrase"
+		walk(root, func(e *model.Elem) {
+			if e.Is(model.DAV, "status") {
+				if f := strings.Fields(e.Text); len(f) >= 2 {
+					e.Text = f[0] + " " + f[1] + " "
+				}
+			}
+		})
+	case 1:
+		what = "status lines of HTTP/1.0 with a long reason phrase"
+		walk(root, func(e *model.Elem) {
+			if e.Is(model.DAV, "status") {
+				if f := strings.Fields(e.Text); len(f) >= 2 {
+					e.Text = "HTTP/1.0 " + f[1] + " as the back end told the gateway some time ago"
+				}
+			}
+		})
+	default:
+		what = "same document, written by another serialiser"
+	}
+	var b strings.Builder
+	b.WriteString(xmlHdr)
+	if sel%2 == 1 {
+		b.WriteString("<!-- written by a gateway -->\n<?gateway hop=\"2\"?>\n")
+	}
+	writeElem(&b, root)
+	return []byte(b.String()), what
+}
 
 func writeElem(b *strings.Builder, e *model.Elem) {
 	fmt.Fprintf(b, `<%s xmlns="%s"`, e.Local, e.Space)
@@ -850,7 +921,7 @@ func (ex *executor) callStep(idx int, st *Step) {
 			bad("missing-error", fmt.Sprintf("the server answered %d but the call returned no error", last.Status))
 		case !errors.As(res.Err, &he) || he.Code != last.Status:
 			bad("error-without-code", fmt.Sprintf("the server answered %d; the call returned %q, which does not carry that status", last.Status, res.Err))
-		case (last.Faulted == "status-daverror" || last.Faulted == "status-daverror-large") && !strings.Contains(res.Err.Error(), "lock-token-submitted"):
+		case (last.Faulted == "status-daverror" || last.Faulted == "status-daverror-large") && last.CutAt < 0 && !strings.Contains(res.Err.Error(), "lock-token-submitted"):
 			bad("dav-error-lost", fmt.Sprintf("the server answered %d with a DAV:error body naming lock-token-submitted; the error is %q", last.Status, res.Err))
 		}
 		return
@@ -966,7 +1037,7 @@ func (ex *executor) callStep(idx int, st *Step) {
 		}
 	}
 	// (2) nothing went wrong on the wire: the outcome is the server's
-	unfaulted := last.Faulted == "" || last.Faulted == "status-keep-body" && last.Status == last.RealStatus
+	unfaulted := (last.Faulted == "" || last.Faulted == "status-keep-body" && last.Status == last.RealStatus || last.Faulted == "ms-neutral") && last.CutAt < 0
 	if unfaulted && res.Err != nil && (ex.bk == nil || len(ex.bk.Fired) == 0) {
 		bad("spurious-error", fmt.Sprintf("the exchange was not disturbed and the server answered %d, but the call failed: %v", last.Status, res.Err))
 	}
